@@ -15,6 +15,9 @@ def positions(seed, tier, scale=1.0):
     for p in ps:
         if p not in seen:
             seen.add(p); out.append(p)
+    # half-move clocks >= 4096 do not survive make/unmake (12-bit field; C03 quantifies over 0..4095, known finding for
+    # the other snapshot-based properties): the shared position stream stays below; C02 adds its own huge clocks
+    out = [p for p in out if int(p.split(' ')[4]) <= 3800]
     DIST.clear(); DIST.update(fen_distribution(out))
     return out
 
@@ -375,6 +378,11 @@ def c03(res, ctx):
     for c, i in zip(cases, impl):
         parts = i.split(' | ')
         if len(parts) != 3:
+            continue
+        f0 = c.split('\t')[0].split(' ')
+        nmoves = len(c.split('\t')[1].split(' '))
+        if int(f0[4]) + nmoves > 4096:
+            res.skipped['clock leaves 0..4095 along the line'] = res.skipped.get('clock leaves 0..4095 along the line', 0) + 1
             continue
         if parts[0] != parts[2]:
             if k < MAXREP: res.violation('unmake', c, parts[0], parts[2], 'property', 'make followed by unmake does not restore the position')
